@@ -158,6 +158,6 @@ MUTANTS = [
          new="n_bins = int(np.floor(clen / binsize))", checks=["binnify"]),
     dict(name="get_chromsizes keeps first bin", file="util.py", old='bins.drop_duplicates(["chrom"], keep="last")',
          new='bins.drop_duplicates(["chrom"], keep="first")', checks=["get_chromsizes"]),
-    dict(name="get_binsize looks at first chromosome only", file="util.py", old="        if len(sizes) > 1:\n            return None\n    if len(sizes) == 1:",
-         new="        if len(sizes) > 1:\n            return None\n        break\n    if len(sizes) == 1:", checks=["get_binsize"]),
+    dict(name="get_binsize looks at first chromosome only", file="util.py", old="        max_last = max(max_last, widths.iloc[-1])\n",
+         new="        max_last = max(max_last, widths.iloc[-1])\n        break\n", checks=["get_binsize"]),
 ]
